@@ -14,7 +14,7 @@ EXPLANATION = ("C02: exhaustive check of the aio provider protocol (result of nn
                " Also: the expiry scan accounts for every entry it walks past (E1), and whoever takes the head off a head-gated request queue starts the next transfer (S3).")
 EXPLANATION += ' Round 3: the absolute-expiry flag is updated together with the timeout / deadline it qualifies (T1).'
 EXPLANATION += " Round 5: the byte-stream connections and the platform's queues park nothing after their close has drained them (P1 = C10.R11 for src/platform and src/supplemental)."
-EXPLANATION += " Round 8: a caller's aio is cleared (nni_aio_reset) on every way from a public entry point to the nni_aio_start of a provider (A15)."
+EXPLANATION += " Round 8: a caller's aio is cleared (nni_aio_reset) on every way from a public entry point to the nni_aio_start of a provider (A15); the one-shot absolute expiry is forgotten wherever the framework ends an operation (T3)."
 EXPLANATION += " Round 6: a one-place park field is not overwritten while occupied (A12); an operation unlinked from its wait list is completed, queued again or handed on (A13); the mark a cancel function tests stays on the operation until it completes without a blocking step in between (A14); a busy latch is released by the completion it waits for (S4); 'served in the same critical section' requires the drain under a closed mark (P1)."
 ASSUMPTIONS = ["interleaving-level behaviour of the expire thread and of user code is not decided"]
 
@@ -1814,6 +1814,56 @@ def rule_a15(ctx):
         raise AnalysisBroken("only %d nni_aio_start sites on a parameter aio" % n)
 
 
+# ---------------------------------------------------------------------------
+# T3: the one-shot absolute expiry is forgotten wherever an operation ends
+
+
+def rule_t3(ctx):
+    r = ctx.rule("C02.T3", "T3", "a timeout never fires early, second part: an absolute expiry (nni_aio_set_expire) is good for one "
+                 "operation. Wherever the framework ends an operation -- nni_aio_finish_impl, and every path of nni_aio_start "
+                 "that returns false (stopped, abort latched, already expired: the callback is dispatched from there) -- "
+                 "a_use_expire is cleared on the way; a path that leaves it set makes every later operation on the aio "
+                 "compare against the stale absolute time and time out at once, before the configured relative timeout", floor=2)
+    r.own_opinion = True
+    from .. import guards as G
+    prog = ctx.prog
+    start = prog.need("nni_aio_start", "core/aio.c")
+    fin = prog.need("nni_aio_finish_impl", "core/aio.c")
+
+    def clears(f):
+        out = set()
+        for t in f.assigns():
+            l = f.expand(t.node["lhs"])
+            if l.get("k") == "mem" and l["f"] == "a_use_expire" and const_of(f.expand(t.node["rhs"])) == 0:
+                out.add((t.b, t.i))
+        return out
+    n = 0
+    cl = clears(start)
+    for s in start.sites():
+        if s.node.get("k") != "ret" or s.node.get("e") is None or const_of(start.expand(s.node["e"])) != 0:
+            continue
+        n += 1
+        seen = start.reach((start.entry, 0), blocked=lambda b, i, e: (b, i) in cl)
+        if (s.b, s.i) in seen:
+            path = start.find_path((start.entry, 0), lambda b, i, t=s: (b, i) == (t.b, t.i), blocked=lambda b, i, e: (b, i) in cl)
+            ctx.fail(r, start, "operation refused at line %s, absolute expiry kept" % s.line, s.line,
+                     "nni_aio_start returns false at line %s (the operation ends here) on a path that does not clear a_use_expire: "
+                     "the absolute expiry of this operation stays in force for every later operation on the aio" % s.line,
+                     path=start.path_lines(path))
+        else:
+            r.ob(start, "return false at line %s: a_use_expire cleared on every path to it" % s.line)
+    cf = clears(fin)
+    n += 1
+    if not cf or G.must_pass(fin, (fin.entry, 0), cf) is not None:
+        ctx.fail(r, fin, "operation completed, absolute expiry kept", fin.line,
+                 "nni_aio_finish_impl can return without clearing a_use_expire: the absolute expiry of the completed operation "
+                 "stays in force for the next one")
+    else:
+        r.ob(fin, "nni_aio_finish_impl clears a_use_expire on every path")
+    if n < 2:        # (one refusing return is enough: the branches may share their tail)
+        raise AnalysisBroken("nni_aio_start has no refusing return")
+
+
 def run(ctx):   # noqa: F811
     ctx.guard(rule_a1)
     ctx.guard(rule_a2)
@@ -1837,3 +1887,4 @@ def run(ctx):   # noqa: F811
     ctx.guard(rule_a14)
     ctx.guard(rule_s4)
     ctx.guard(rule_a15)
+    ctx.guard(rule_t3)
